@@ -21,14 +21,14 @@ ASSUMPTIONS = [
     "section bodies are straight-line code whose later operations may depend on earlier reads (finite interaction trees); environment steps "
     "(producer pushes, the other lock holder, consumer readiness) happen between attempts",
     "PreCommit errors are ErrCriticalSectionAborted (the only error the shipped resources yield from PreCommit)",
-    "not modelled in Coq (covered by other properties' models): CRDT (C13), 2PC (C11), nested archetypes, failure detector; tcpMailboxesLocal/relaxedMailboxesLocal "
+    "not modelled in Coq: CRDT (single node), unreplicated 2PC, failure detector, PlaceHolder are run against the real code with the implementation-side oracle only; nested archetypes are not covered; tcpMailboxesLocal/relaxedMailboxesLocal "
     "are the InputChan discipline (readBacklog/readsInProgress) and are exercised as the receiving side only",
     "vector clocks are transparent to values and not modelled",
 ]
-RULE = ("cases = one MPCalContext with 1-5 resources drawn from 15 kinds (local, indexed local, InputChan, CustomInChan, OutputChan, SingleOutputChan, Dummy, "
-        "FileSystem, IncMap/HashMap of locals, Persistent, IncMap of Persistent, PersistentLog, localShared, TCP mailboxes, relaxed mailboxes over 127.0.0.1), "
+RULE = ("cases = one MPCalContext with 1-5 resources drawn from 21 kinds (local, indexed local, InputChan, CustomInChan, OutputChan, SingleOutputChan, Dummy, "
+        "FileSystem, IncMap/HashMap of locals, Persistent, IncMap of Persistent, PersistentLog, localShared, TCP and relaxed mailboxes over 127.0.0.1 on the sending and on the receiving side; oracle-only: single-node CRDT, unreplicated 2PC, failure detector, PlaceHolder), "
         "1-6 attempts of 1-8 scripted operations (reads/writes with index paths, write-what-was-read, await, assert, goto), one injected failure per failing attempt "
-        "at a random position (false await, refusal at call j of an operation's Index/Read/Write chain, PreCommit failure of a random subset, resource-inherent: "
+        "at a random position (false await, refusal at call j of an operation's Index/Read/Write chain, PreCommit failure of a random subset of resources, PreCommit refusal of chosen elements among 2-4 touched elements of one IncMap/HashMap, resource-inherent: "
         "empty channel, lock held elsewhere, full consumer), usually followed by a fault-free retry, plus a final observing section; all from one PRNG (VERIF_SEED). "
         "Non-trivial = at least 2 resource kinds, a write before the failure and at least one failing attempt; distinct by canonical case text.")
 
